@@ -68,6 +68,8 @@ def step(i, env):
         return (vals[0] << (vals[1] & 63)) & mask
     if op == "lshr":
         return ((vals[0] & mask) >> (vals[1] & 63)) & mask
+    if op == "ashr":
+        return (sgn(vals[0], w) >> (vals[1] & 63)) & mask
     if op == "select":
         return vals[1] if vals[0] & 1 else vals[2]
     if op == "icmp":
